@@ -465,7 +465,7 @@ def main(rep, ws, tier):
     check_cubic_double_root(rep, ws)
     check_cubic_generic(rep, ws)
     rep.floor('utility obligations', len(rep.obs), 30)
-    rep.assumptions += ['NaN-free operands for the order rules', 'exact real arithmetic for lerp identities', 'no intermediate negation overflows in divs/mods/divp/modp (the property\'s proviso)', '|x| < 2^31 for floor/ceil/trunc (int(x) defined)']
+    rep.assumptions += ['solveNormalizedCubic cells: csqrt / clog / pow / exp / cos / sin / __divdc3 / __muldc3 replaced by their C99 Annex G / libstdc++ definitions on the cell; the double constants nearest 1/3 and sqrt(3) read as 1/3 and sqrt(3)', 'NaN-free operands for the order rules', 'exact real arithmetic for lerp identities', 'no intermediate negation overflows in divs/mods/divp/modp (the property\'s proviso)', '|x| < 2^31 for floor/ceil/trunc (int(x) defined)']
     rep.undecided_clauses += ['accuracy of the root solvers', 'rgb<->hsv round trip and packed round trip (run-time arithmetic)']
 
 def check_next(rep, ws):
